@@ -50,6 +50,11 @@ theorem globals_reviewed :
     ∧ decide (20 ≤ compileGlobals.length) = true := by
   decide +kernel
 
+/-- the importers (which run inside the compiler for foreign imports) assign no package-level
+    variable and call no method on one -/
+theorem importer_globals_readonly : importerGlobals.all (fun g => g.use == "read") = true := by
+  decide +kernel
+
 /-- reviewed range-over-map sites of kind "other" in the compiler packages -/
 def reviewed : List (String × String × String) := [
   ("pkg/parse", "(*Parser).postProcess", "app.Types"),       -- each iteration fixes refs of its own type's fields; reads only key sets no inner loop mutates
